@@ -212,6 +212,11 @@ static void readField(const char* path, const char* key, char* out, size_t n) {
 }
 
 int main(int argc, char** argv) {
+  // The batch parent must look the same to every forked child (address-dependent behaviour in
+  // the code under test must not depend on how many result lines the parent has printed): give
+  // stdio a static buffer so it never allocates.
+  static char outbuf[1 << 16];
+  setvbuf(stdout, outbuf, _IOLBF, sizeof outbuf);
   Args a;
   for (int i = 1; i < argc; ++i) {
     auto is = [&](const char* s) { return !strcmp(argv[i], s); };
